@@ -46,6 +46,12 @@ PROPS = {
                           dict(name="fe", family="fe", profile="fe", quick=700, thorough=8000, tags=["issues", "first", "panic", "nested_source_tag"])]),
     "C12": dict(theorems=["C12_engine_computes_semantics"], cone=ENGINE_CONE, rule=ENGINE_RULE,
                 families=[eng("engine", "C12", 1200, 20000, ["calls", "args", "ctx", "haserr", "panic"])]),
+    "C11": dict(theorems=["C11_catalogue_ok_partial", "C11_custom_refuted", "C11_no_placeholder_left", "C11_precedence_test", "C11_precedence_exec",
+                          "C11_precedence_global", "C11_i18n_uses_context_language", "C11_i18n_falls_back_to_default"],
+                cone=["Model/Fmt.v", "Proofs/FmtP.v", "Gen/Tables.v"],
+                rule="exhaustive: every catalogue entry (every built-in test of every type, plain and negated, required / not_nil / coerce per type, front-end decode failures) x {no language, en, es, unknown language} plus test-level Message, execution-level formatter, both, and a formatter that sets nothing, after an i18n re-installation; then random (entry, language, test message, execution formatter) combinations; the finite theorems are re-proved against the tables dumped from the running code; distinct = distinct (entry, which formatters are present)",
+                families=[sat("messages", "messages", 1500, 12000, ["message", "described", "described_custom"]),
+                          eng("engine", "C11", 700, 8000, ["params", "dtype", "msg", "panic"])]),
     "C13": dict(theorems=["C13_engine_computes_semantics"], cone=ENGINE_CONE,
                 rule="a generated schema (no Preprocess, no PostTransforms, no custom coercers) and a generated fully populated value of its destination type (no zero leaf, no empty slice, no nil pointer); the value is validated in place and, presented as the plain map it would be decoded from, parsed into a fresh destination; issues (path, code, type, message) and final values are compared with each other (model-free) and both executions with the Coq engine; distinct = distinct (schema shape, issue codes, mode)",
                 families=[dict(name="modes", family="modes", profile="C13", quick=700, thorough=12000, tags=["modes_agree", "panic", "nil", "issues", "dest"])]),
